@@ -1,7 +1,8 @@
 \* trace validation on the Edge tree
-CONSTANTS NLeaf = 6  NBlk = 4  NAsm = 4  MaxLevel = 999  LMax = 20000  VMax = 100
+CONSTANTS NLeaf = 6  NBlk = 4  NAsm = 4  MaxLevel = 999  LSrc = 600  LMax = 20000  VMax = 100
 CONSTANTS Parent <- TEdgeParent  Area <- TEdgeArea  Height <- TEdgeHeight  Sym <- TEdgeSym  W <- Wt  N0 <- TEdgeN0  H0 <- TEdgeH0
 CONSTANTS Targets <- TEdgeTargetsAll  Vals <- ValsQ  Facs <- FacsQ  Masses <- MassesQ  Maps <- MapsQ  FracMaps <- FracMapsQ  AddMaps <- AddMapsQ  SetMaps <- SetMapsQ
+CONSTANTS AdjSets <- AdjSetsQ  EnrFracs <- EnrFracsQ  AdjMFs <- AdjMFsQ
 CONSTANTS HDom <- HDom123  HTargets <- TEdgeHAll  HVals <- HDom123
 CONSTANTS LeafVolCut <- LeafVolCutEnv  ScaleRaises <- ScaleRaisesEnv
 SPECIFICATION TSpec
